@@ -151,6 +151,8 @@ class Run:
             with open(p, "w") as f:
                 f.write(body)
             vpaths.append((p, v["what"]))
+        if os.environ.get("VERIF_DEBUG"):
+            self._debug_buckets()
         cov = dict(self.cov)
         cov.setdefault("evaluations", cov.get("traces_validated_against_impl", 0))
         cov["samples"] = self.samples if self.samples else ["(none)"]
@@ -194,6 +196,41 @@ class Run:
         )
         sys.stdout.flush()
         return 1 if len(seen) > 0 else 0
+
+
+def _sig(case):
+    h = case.get("history") if isinstance(case, dict) else None
+    if isinstance(h, dict) and "steps" in h:
+        sig = [st["op"] + (":" + st["jointype"] if "jointype" in st else "") for st in h["steps"]]
+    else:
+        sig = []
+    if isinstance(case, dict):
+        for k, v in case.items():
+            if isinstance(v, dict) and "raise" in v:
+                sig.append(f"{k}!{v['raise']}")
+    return tuple(sig)
+
+
+def _debug_buckets(self):
+    import collections
+
+    b = collections.defaultdict(list)
+    for v in self.violations:
+        b[_sig(v["case"])].append(v)
+    for sig, vs in sorted(b.items(), key=lambda kv: -len(kv[1]))[:40]:
+        print("=====", sig, len(vs))
+        c = vs[0]["case"]
+        print("   ", vs[0]["what"][:300])
+        if isinstance(c, dict):
+            for k, val in c.items():
+                if k == "history":
+                    continue
+                if k == "data" and isinstance(val, dict):
+                    val = {kk: (t.get("rows") if isinstance(t, dict) else t) for kk, t in val.items()}
+                print("     ", k, str(val)[:400])
+
+
+Run._debug_buckets = _debug_buckets
 
 
 class Part:
